@@ -764,7 +764,8 @@ def object_construct(expression: exp.Expression) -> exp.Expression:
             if left_is_null or right_is_null:
                 continue
 
-            non_null_expressions.append(e)
+            # transform() does not descend into a node it has replaced, so rewrite nested OBJECT_CONSTRUCTs here
+            non_null_expressions.append(e.transform(object_construct))
 
         if not non_null_expressions:
             # duckdb has no empty struct literal
